@@ -262,6 +262,11 @@ class TimepointsUnmasked(Spec):
 
 UNITS = [TimeReparam(), LogisticWithSources(), LogisticNoSources(), LinearWithSources(), SharedSpeedWithSources(), Metrics(), MetricLinear(), MetricShared(),
          TimepointsUnmasked()]
+# "for any parameters": the trajectory is computed on ONE FRESH clone of the model's current state, taken in the call itself, written
+# with the call's ages and individual parameters, and read back from that clone -- nothing is kept from an earlier call (contract
+# of C13, verified with C13's callee contracts of State)
+from contracts import c13 as _c13
+UNITS += [foreign(_c13.TrajectoryOnClone(), "c13")]
 CALLEES = [SetItemProbe()]
 ASSUMPTIONS = ["sigmoid, exp, log uninterpreted with the facts listed in LEMMAS (axiom table)",
                "alpha = exp(xi), v0 = exp(log_v0), g = exp(log_g) are positive (DAG definitions Exp(...))"]
